@@ -68,6 +68,30 @@ type Proxy struct {
 	AfterReply func(req, reply []byte)
 	// Rewrite, when non-nil, may replace the backend's reply (e.g. to echo a caller-specific tag).
 	Rewrite func(req, reply []byte) []byte
+	// Frag, when true, delivers every reply in several write segments of random size (as a stream
+	// socket may): readers must not assume that one Read returns a whole frame.
+	Frag bool
+}
+
+// writeReply writes a reply frame, fragmented when p.Frag is set.
+func (p *Proxy) writeReply(b []byte) error {
+	if !p.Frag {
+		return writeFrame(p.srv, b)
+	}
+	msg := make([]byte, 4+len(b))
+	binary.BigEndian.PutUint32(msg, uint32(len(b)))
+	copy(msg[4:], b)
+	for len(msg) > 0 {
+		n := 1 + p.rnd.Intn(len(msg))
+		if n > 7 && p.rnd.Intn(2) == 0 {
+			n = 1 + p.rnd.Intn(7)
+		}
+		if _, err := p.srv.Write(msg[:n]); err != nil {
+			return err
+		}
+		msg = msg[n:]
+	}
+	return nil
 }
 
 // NewProxy starts the proxy goroutines over an in-memory pipe; hand p.Client to the code under test.
@@ -168,7 +192,7 @@ func (p *Proxy) loop() {
 			if kill {
 				return
 			}
-			if err := writeFrame(p.srv, reply); err != nil {
+			if err := p.writeReply(reply); err != nil {
 				return
 			}
 			continue
@@ -190,7 +214,7 @@ func (p *Proxy) loop() {
 		p.mu.Lock()
 		p.frames = append(p.frames, Frame{Req: req, Reply: reply})
 		p.mu.Unlock()
-		if err := writeFrame(p.srv, reply); err != nil {
+		if err := p.writeReply(reply); err != nil {
 			return
 		}
 	}
